@@ -30,6 +30,7 @@ class Harness:
         self.stubs = meta.get("stubs", "")
         self.assumes = meta.get("assumes", "")
         self.nocover = meta.get("nocover", "") in ("1", "true", "yes")
+        self.must_panic = meta.get("must_panic", "") in ("1", "true", "yes")
 
     @property
     def modname(self):
